@@ -502,7 +502,10 @@ func (e *Exec) step(s *State, in ssa.Instruction) {
 		e.slice(s, x)
 	case *ssa.MakeSlice:
 		ln, cp := e.val(s, x.Len)[0], e.val(s, x.Cap)[0]
-		c.oblige(e.obl("safety", "makeslice", in), s.pc, c.B("(and (<= 0 %s) (<= %s %s) (<= %s %s))", ln, ln, cp, cp, maxLen))
+		// negative sizes panic; sizes beyond 2^48 elements cannot be allocated (the engine's
+		// standing no-out-of-memory assumption): such a make does not return
+		c.oblige(e.obl("safety", "makeslice", in), s.pc, c.B("(and (<= 0 %s) (<= %s %s))", ln, ln, cp))
+		c.assume(s.pc, c.B("(<= %s %s)", cp, maxLen))
 		et := x.Type().Underlying().(*types.Slice).Elem()
 		obj := e.alloc(s, et)
 		s.regs[x] = Val{obj, "0", ln, cp}
